@@ -22,6 +22,57 @@ pub fn take_log(l: &Log) -> Vec<Rec> {
     l.borrow().clone()
 }
 
+/// Per-thread plan of one C20 run: which member of the generator family the shared generator is, and the ordinal of the
+/// member update (counted over the whole run) at which the probe aborts instead of acting - a member that fails (as the
+/// built-in agents do when a submission is rejected). The caller of the set catches the abort; the next call of the set
+/// must again update every member once, in order.
+#[derive(Clone, Copy, Default)]
+pub struct Plan {
+    pub gen_kind: usize,
+    pub panic_at: Option<usize>,
+    pub ordinal: usize,
+}
+thread_local! {
+    static PLAN: std::cell::Cell<Plan> = const { std::cell::Cell::new(Plan { gen_kind: 0, panic_at: None, ordinal: 0 }) };
+}
+pub fn plan_set(gen_kind: usize, panic_at: Option<usize>) {
+    PLAN.with(|p| p.set(Plan { gen_kind, panic_at, ordinal: 0 }));
+}
+/// the shared generator of a run (the member of the family named by the plan)
+pub fn plan_rng(seed: u64) -> crate::rng::SeamRng {
+    crate::rng::SeamRng::passthrough_kind(seed, PLAN.with(|p| p.get().gen_kind))
+}
+/// one call of a set's update; an abort of a member is caught here, as a caller would
+pub fn plan_call(f: impl FnOnce()) {
+    let _ = crate::core::guard(f);
+}
+/// which `RngCore` method the k-th member update of a run uses: 0 next_u64, 1 next_u32, 2 fill_bytes(8)
+pub fn draw_mode(tag: u32, ordinal: usize) -> usize {
+    (tag as usize + ordinal) % 3
+}
+pub fn draw_with<R: RngCore>(rng: &mut R, mode: usize) -> u64 {
+    match mode {
+        0 => rng.next_u64(),
+        1 => rng.next_u32() as u64,
+        _ => {
+            let mut b = [0u8; 8];
+            rng.fill_bytes(&mut b);
+            u64::from_le_bytes(b)
+        }
+    }
+}
+/// start of a member update: its ordinal, or the planned abort
+fn member_enter() -> usize {
+    let mut pl = PLAN.with(|p| p.get());
+    let k = pl.ordinal;
+    pl.ordinal += 1;
+    PLAN.with(|p| p.set(pl));
+    if pl.panic_at == Some(k) {
+        panic!("probe member fails (planned, member update {})", k);
+    }
+    k
+}
+
 pub struct Probe<const T: u8> {
     tag: u32,
     log: Log,
@@ -33,7 +84,8 @@ impl<const T: u8> Probe<T> {
 }
 impl<const T: u8> Agent for Probe<T> {
     fn update<R: RngCore>(&mut self, env: &mut Env, rng: &mut R) {
-        let draw = rng.next_u64();
+        let k = member_enter();
+        let draw = draw_with(rng, draw_mode(self.tag, k));
         let orders = env.get_orders().len();
         self.log.borrow_mut().push(Rec { tag: self.tag, ty: T, draw, orders });
         // members may act on the shared environment in any way, e.g. halt / resume trading in the middle of a set's update
@@ -58,7 +110,8 @@ impl<const T: u8> MProbe<T> {
 }
 impl<const T: u8> MarketAgent for MProbe<T> {
     fn update<R: RngCore, const M: usize, const N: usize>(&mut self, env: &mut MarketEnv<M, N>, rng: &mut R) {
-        let draw = rng.next_u64();
+        let k = member_enter();
+        let draw = draw_with(rng, draw_mode(self.tag, k));
         let orders = env.get_orders(0).len();
         self.log.borrow_mut().push(Rec { tag: self.tag, ty: T, draw, orders });
         if T == 3 && draw % 4 == 0 {
